@@ -364,7 +364,7 @@ def simplify_unitary(expr: e.Expr, t_name: str,
     from . import func
     from itertools import combinations
 
-    def simplify_term_unitary(term: e.Term) -> e.Term:
+    def simplify_term_unitary(term: e.Term) -> e.Term | e.Expr:
         obj = term.objects
         # collect the indices of all unitary tensors in the term
         unitary_tensors = [i for i, o in enumerate(obj) if o.name == t_name
@@ -434,7 +434,14 @@ def simplify_unitary(expr: e.Expr, t_name: str,
                     continue
                 else:
                     new_term *= o
-            return simplify_term_unitary(new_term.terms[0])
+            # if only a polynom (a + b)^1 remains, the product is no longer
+            # a single term: simplify all of the terms
+            if len(new_term) == 1:
+                return simplify_term_unitary(new_term.terms[0])
+            res = e.Expr(0, **term.assumptions)
+            for new_t in new_term.terms:
+                res += simplify_term_unitary(new_t)
+            return res
         # could not find simplification -> return
         return term
 
